@@ -94,7 +94,7 @@ func (r *schedSeeker) Seek(off int64, whence int) (int64, error) {
 }
 
 type c08Cfg struct {
-	Kind string // bytes bufio plain seek seekoff
+	Kind string // bytes bufio plain seek seekoff bytesoff section
 	Auto bool
 	K    int // packet size 188+k
 }
@@ -109,6 +109,17 @@ func c08Reader(cfg c08Cfg, b []byte, chunk int, env *mc.Env) io.Reader {
 		return bufio.NewReader(&schedReader{b: b, chunk: chunk, env: env})
 	case "seek":
 		return &schedSeeker{schedReader{b: b, chunk: chunk, env: env}}
+	case "bytesoff", "section":
+		// library reader types that also implement io.ReaderAt: a *bytes.Reader that was advanced past a
+		// prefix, and an *io.SectionReader over the part of a larger input that holds the stream
+		pre := bytes.Repeat([]byte{0xaa, 0x47, 0x00}, 67)
+		all := append(append(pre, b...), 0x47, 0x00, 0x47)
+		if cfg.Kind == "section" {
+			return io.NewSectionReader(bytes.NewReader(all), int64(len(pre)), int64(len(b)))
+		}
+		r := bytes.NewReader(all[:len(pre)+len(b)])
+		r.Seek(int64(len(pre)), io.SeekStart)
+		return r
 	case "seekoff":
 		// a seekable reader that does not stand at offset 0 when the Demuxer gets it (the stream follows
 		// 300 bytes of something else): the stream is what the reader delivers from where it stands
@@ -181,7 +192,7 @@ func checkC08(c *mc.Ctx) {
 	two := append(append([]byte{}, one...), EncodePkts(Packetize(PESUnit(0x100, 0xe0, pesPayload(81, 100, c.Seed), 1, false), nil, new(uint8), false))...)
 	streams = append(streams, &Stream{Name: "single-packet", Bytes: one}, &Stream{Name: "two-packets", Bytes: two})
 	var cfgs []c08Cfg
-	for _, kind := range []string{"bytes", "bufio", "plain", "seek", "seekoff"} {
+	for _, kind := range []string{"bytes", "bufio", "plain", "seek", "seekoff", "bytesoff", "section"} {
 		for _, k := range []int{0, 1, 2, 3, 4, 16} {
 			cfgs = append(cfgs, c08Cfg{kind, false, k})
 			if k <= 4 {
@@ -232,7 +243,7 @@ func checkC08(c *mc.Ctx) {
 			if cfg.Auto && len(st.Bytes) < 3*188 {
 				continue
 			}
-			if cfg.Kind == "bytes" {
+			if cfg.Kind == "bytes" || cfg.Kind == "bytesoff" || cfg.Kind == "section" {
 				jobs = append(jobs, job{cfg, 0})
 				continue
 			}
@@ -265,7 +276,7 @@ func checkC08(c *mc.Ctx) {
 			bound = 3
 		}
 		for _, cfg := range cfgs {
-			if cfg.Kind == "bytes" || (cfg.K != 0 && cfg.K != 4) || (cfg.Auto && len(st.Bytes) < 3*188) {
+			if cfg.Kind == "bytes" || cfg.Kind == "bytesoff" || cfg.Kind == "section" || (cfg.K != 0 && cfg.K != 4) || (cfg.Auto && len(st.Bytes) < 3*188) {
 				continue
 			}
 			if cfg.K == 4 && !c.Thorough() && cfg.Kind != "plain" {
